@@ -9,6 +9,7 @@ func init() {
 			"R-BRANCH: in evalIfStmt/evalTernaryExp each branch evaluation is control-dependent on the truthiness of its own condition, branches are visited in source order, a chosen branch's result is returned at once, @else only after all conditions were falsy",
 			"R-PREFIXKW: for every directive keyword that is a proper prefix of another the lexer's continuation predicate is true exactly towards the longer keyword (decided by constant evaluation of the predicate)",
 			"R-EMIT: statement results are concatenated in order with no filtering",
+			"R-BLOCKEND / R-BLOCKSTART: a branch body ends at the next @else / @elseif / @end, also when it is empty (the body parsers are case-evaluated on an abstract parser over all token types they look at)",
 		},
 		Decided:     "TODO",
 		NotDecided:  "TODO",
@@ -19,6 +20,7 @@ func init() {
 			m.RunEvalErr(s, "R-EVALERR") // a failing condition / body / sub-expression fails the render instead of being treated as a value
 			m.RunBranch(s, "R-BRANCH")
 			m.RunBlockEnd(s, "R-BLOCKEND")
+			m.RunBlockStart(s, "R-BLOCKSTART")
 			m.RunPrefixKW(s, "R-PREFIXKW")
 			m.RunEmit(s, "R-EMIT")
 			s.RequireMin("R-TRUTH", 12, "7 table rows + 5 users")
